@@ -575,6 +575,14 @@ func (s *sim) cmd(idx int, st Step) string {
 	if st.NoGo {
 		extra = append(extra, "PATH=/nonexistent-bin")
 	}
+	if st.EnvTags {
+		gf := "-tags=integration,e2e"
+		if s.c.Layout == world.LayoutModVendor {
+			gf = "-mod=vendor " + gf
+		}
+		extra = append(extra, "GOFLAGS="+gf)
+		e.Stats.Counts.Add("probe_goflags_tags_in_environment", 1)
+	}
 	res := s.w.Exec(e.B.WireSim, cwdOf(s.w, st), plan, s.scratch, extra, s.argv(st, s.w)...)
 	e.Stats.Commands.Add(st.Cmd, 1)
 	if res.TimedOut {
